@@ -164,6 +164,8 @@ def charts(ctx, out):
     for k in range(ctx.n(120, 12_000)):
         src = gen.rand_src(rng, gen.Profile(max_tempo=16, garbage=0.0, unknown_sections=0.0, meta_fields=0.0) if k % 4 == 0 else prof)
         cases.append((src, gen.render(src, rng, prof)))
+    from . import inst_common as ic
+    cases += ic.far_cases(rng, ic.prof(garbage=0.0, exotic_pad=0.0, exotic_digits=0.0))  # notes and phrases beyond 2^32 and 2^53: ends after starts there too
     a, b = common.run_charts([(R.text, None) for _, R in cases])
     direct_vs_events(ctx, out, cases)
     for (src, R), x, y in zip(cases, a, b):
